@@ -86,3 +86,29 @@ Example c11_nonvacuous :
   /\ write_svarint (-1) = Ok [1] /\ write_int 2 true 40000 = Err EStruct
   /\ typed_prim [0] (PStr true true) (VStr [104; 105]) = true.
 Proof. vm_compute. repeat split; reflexivity. Qed.
+
+(* ---- the same, stated directly about the PUBLIC functions by name (Prim/Public.v is what the
+   correspondence compares with kio.serial.readers / kio.serial.writers function by function;
+   Prim/PublicProofs.v): public_pairs lists every (writer, reader, domain) of matching public
+   functions - 40 rows covering all 58 modelled names - and public_bounded the fixed-width and
+   length-limited writers with their exact in-range predicates. *)
+From KioV Require Import Prim.Public Prim.PublicProofs.
+
+Theorem c11_public_reader_after_writer : forall ec w r dom v tl,
+  In (w, r, dom) public_pairs -> dom ec v = true ->
+  exists bs, public_write w v = Ok bs /\ run (public_read ec r) (bs ++ tl) = Ok (v, tl).
+Proof. exact public_read_after_write. Qed.
+Print Assumptions c11_public_reader_after_writer.
+
+Theorem c11_public_writers_raise_outside_domain : forall w inr v,
+  In (w, inr) public_bounded -> well_shaped w v -> inr v = false -> public_write w v = Err (reject_class w).
+Proof. exact public_write_rejects_class. Qed.
+Theorem c11_public_writers_accept_inside_domain : forall w inr v,
+  In (w, inr) public_bounded -> well_shaped w v -> inr v = true -> exists bs, public_write w v = Ok bs.
+Proof. exact public_write_accepts. Qed.
+Print Assumptions c11_public_writers_raise_outside_domain.
+
+Example c11_every_public_name_is_covered :
+  forallb (fun n => existsb (fun p => (String.eqb n (fst (fst p))) || (String.eqb n (snd (fst p)))) public_pairs)
+          modelled_names = true.
+Proof. vm_compute. reflexivity. Qed.
